@@ -1,8 +1,80 @@
 import PvlModel.Model.Encoder
-import PvlModel.Model.Spec
+
 /-!
-# C12
-(theorems are added below as they are proved; see DESIGN §5)
+# C12 — encoder output obeys the surface rules of its dialect
+
+Shape theorems about `Enc.encodeOut` (the model of `encoder.encode(module)`), for every module,
+encoder and option combination.  The line-level rules (indentation, alignment, block pairing) are
+judged on the real output by the independent conformance reader of the check; they are not yet
+theorems.
 -/
-namespace Pvl
-end Pvl
+namespace Pvl.Enc
+open Py
+
+/-- **C12, shape of every output**: any text an encoder returns is `body NEWLINE END-line`, every
+    character of which passed the final character-set sweep, followed by the line end (ODL, PDS3) and
+    with tabs replaced (PDS3). -/
+theorem C12_shape (c : EncCfg) (items : Items) (s : Str) (h : encodeOut c items = .ok s) :
+    ∃ body, (join c.newline [body, endLine c]).all (charAllowedE c.g) = true ∧
+      s = finish c (join c.newline [body, endLine c]) := by
+  unfold encodeOut at h
+  simp only at h
+  split at h
+  · cases h
+  · split at h
+    · cases h
+    · rename_i body _
+      by_cases hall : (join c.newline [body, endLine c]).all (charAllowedE c.g) = true
+      · simp only [hall, if_true, Except.ok.injEq] at h
+        exact ⟨body, hall, h.symm⟩
+      · simp [hall] at h
+
+/-- **C12, character set** for the PVL and ISIS encoders: every character of the output is in the
+    grammar's table (C15 says what the tables are). -/
+theorem C12_charset (c : EncCfg) (items : Items) (s : Str) (hk : c.kind = .pvl ∨ c.kind = .isis)
+    (h : encodeOut c items = .ok s) : s.all (charAllowedE c.g) = true := by
+  obtain ⟨body, hall, hs⟩ := C12_shape c items s h
+  have hodl : isOdlFamily c = false := by
+    rcases hk with hk | hk <;> simp [isOdlFamily, hk]
+  have hpds : (c.kind == EncKind.pds) = false := by
+    rcases hk with hk | hk <;> simp [hk]
+  rw [hs]
+  simpa [finish, hodl, hpds] using hall
+
+/-- **C12, no tabs in PDS3 output** when tab replacement is on -/
+theorem C12_no_tabs (c : EncCfg) (items : Items) (s : Str) (hk : c.kind = .pds) (ht : c.tabReplace > 0)
+    (h : encodeOut c items = .ok s) : s.contains 9 = false := by
+  obtain ⟨body, _, hs⟩ := C12_shape c items s h
+  rw [hs]
+  simp only [finish, hk, beq_self_eq_true, ht, decide_true, Bool.and_self, if_true]
+  generalize (if isOdlFamily c = true then join c.newline [body, endLine c] ++ c.newline
+    else join c.newline [body, endLine c]) = t
+  induction t with
+  | nil => rfl
+  | cons x r ih =>
+    simp only [List.flatMap_cons, List.contains_eq_mem, List.mem_append, decide_eq_false_iff_not, not_or] at *
+    refine ⟨?_, ih⟩
+    by_cases hx : (x == 9) = true
+    · simp only [hx, if_true, List.mem_replicate]
+      intro ⟨_, h9⟩; cases h9
+    · simp only [hx, Bool.false_eq_true, if_false, List.mem_singleton]
+      intro h9; apply hx; simp [h9]
+
+/-- **C12, final line end** for the ODL and PDS3 encoders (before tab replacement the text ends with the
+    configured line end; PDS3 fixes it to CR-LF in its constructor) -/
+theorem C12_odl_lineend (c : EncCfg) (items : Items) (s : Str) (hk : c.kind = .odl)
+    (h : encodeOut c items = .ok s) : endsWith s c.newline = true := by
+  obtain ⟨body, _, hs⟩ := C12_shape c items s h
+  rw [hs]
+  simp only [finish, isOdlFamily, hk, beq_self_eq_true, Bool.true_or, if_true]
+  have : (EncKind.odl == EncKind.pds) = false := rfl
+  simp only [this, Bool.false_and, Bool.false_eq_true, if_false]
+  unfold endsWith
+  rw [List.reverse_append]
+  generalize c.newline.reverse = p
+  generalize (join c.newline [body, endLine c]).reverse = q
+  induction p with
+  | nil => simp [startsWith]
+  | cons a r ih => simp [startsWith, ih]
+
+end Pvl.Enc
